@@ -1,5 +1,7 @@
 //! jvh — correspondence harness: runs the real jrsonnet code in-process on generated cases and
 //! writes (operation, implementation answer) pairs for the Lean driver to be compared with.
+#![allow(dead_code)]
+mod astjson;
 mod common;
 mod engines;
 
@@ -42,7 +44,9 @@ fn main() {
 		}
 		i += 1;
 	}
-	common::quiet_panics();
+	if std::env::var_os("JVH_VERBOSE").is_none() {
+		common::quiet_panics();
+	}
 	if !engines::run(&engine, &opts) {
 		eprintln!("unknown engine {engine}");
 		std::process::exit(2);
